@@ -1,6 +1,6 @@
 use std::time::Duration;
 
-use datacake_crdt::HLCTimestamp;
+use datacake_crdt::{HLCTimestamp, TimestampError};
 use tokio::sync::oneshot;
 
 use crate::NodeId;
@@ -55,7 +55,18 @@ async fn run_clock(mut clock: HLCTimestamp, reqs: flume::Receiver<Event>) {
     while let Ok(event) = reqs.recv_async().await {
         match event {
             Event::Get(tx) => {
-                let ts = clock.send().expect("Clock counter should not overflow");
+                let ts = loop {
+                    match clock.send() {
+                        Ok(ts) => break ts,
+                        // The counter is exhausted for the current instant, i.e. a registered
+                        // remote timestamp carried a (nearly) exhausted counter. A greater
+                        // timestamp can only be issued once time has moved on.
+                        Err(TimestampError::Overflow) => {
+                            tokio::time::sleep(Duration::from_millis(1)).await;
+                        },
+                        Err(e) => panic!("Clock should be able to issue a timestamp: {e}"),
+                    }
+                };
 
                 if clock.counter() >= CLOCK_BACKPRESSURE_LIMIT {
                     tokio::time::sleep(Duration::from_millis(1)).await;
@@ -64,7 +75,11 @@ async fn run_clock(mut clock: HLCTimestamp, reqs: flume::Receiver<Event>) {
                 let _ = tx.send(ts);
             },
             Event::Register(remote_ts) => {
-                let _ = clock.recv(&remote_ts);
+                // The same applies when the remote timestamp itself leaves no room in the
+                // counter, it can only be registered once time has moved on.
+                while let Err(TimestampError::Overflow) = clock.recv(&remote_ts) {
+                    tokio::time::sleep(Duration::from_millis(1)).await;
+                }
 
                 if clock.counter() >= CLOCK_BACKPRESSURE_LIMIT {
                     tokio::time::sleep(Duration::from_millis(1)).await;
